@@ -66,7 +66,18 @@ const (
 	shCount
 )
 
-var shapeNames = []string{"TEXT f", "TEXT syscall.Syscall", "TEXT_", "TEXT(bare)", "TEXT generic", "RAW", "RAW-other", "RAW(bare)", "MOV $0x3b,AX", "MOV $1,BP", "MOV $1,0(SP)", "MOV $-1,AX", "MOV $zz,AX", "MOV $999999,AX", "XORL AX,AX", "CALL syscall.Syscall", "CALL(bare)", "NOPL", "(empty)", "(70000 bytes)"}
+// shapes used only by the generated listings (not part of the exhaustive text alphabet)
+const (
+	shRaw2  = shCount     // second raw instruction of the parser: SYSENTER on i386 (neutral on x86_64)
+	shCall2 = shCount + 1 // 4-field CALL golang.org/x/sys/unix.RawSyscallNoError(SB)
+	shCall3 = shCount + 2 // 4-field CALL syscall.rawVforkSyscall(SB)
+)
+	shRaw2  = shCount + iota - shCount // second raw instruction of the parser: SYSENTER on i386 (neutral on x86_64)
+	shCall2                            // 4-field CALL golang.org/x/sys/unix.RawSyscallNoError(SB)
+	shCall3                            // 4-field CALL syscall.rawVforkSyscall(SB)
+)
+
+var shapeNames = []string{"TEXT f", "TEXT syscall.Syscall", "TEXT_", "TEXT(bare)", "TEXT generic", "RAW", "RAW-other", "RAW(bare)", "MOV $0x3b,AX", "MOV $1,BP", "MOV $1,0(SP)", "MOV $-1,AX", "MOV $zz,AX", "MOV $999999,AX", "XORL AX,AX", "CALL syscall.Syscall", "CALL(bare)", "NOPL", "(empty)", "(70000 bytes)", "SYSENTER", "CALL unix.RawSyscallNoError", "CALL syscall.rawVforkSyscall"}
 
 func rawInstr(i386 bool) string {
 	if i386 {
@@ -118,6 +129,12 @@ func renderLine(sh, n int, i386 bool) string {
 		return ""
 	case shLong:
 		return "  f.go:1\t0x1\t90\t" + strings.Repeat("X", 70000)
+	case shRaw2:
+		return ins("SYSENTER")
+	case shCall2:
+		return ins("CALL golang.org/x/sys/unix.RawSyscallNoError(SB)")
+	case shCall3:
+		return ins("CALL syscall.rawVforkSyscall(SB)")
 	}
 	return ""
 }
@@ -156,9 +173,9 @@ func modelExtract(shapes []int, i386 bool, names map[int]string) (sites []modelS
 			continue
 		}
 		window = append(window, n)
-		isRaw := sh == shRaw || sh == shRawBare
+		isRaw := sh == shRaw || sh == shRawBare || (sh == shRaw2 && i386)
 		// on x86_64 the i386 raw instruction "INT $0x80" is neutral; on i386 "SYSCALL" is neutral
-		isCall := sh == shCall || sh == shCallBare
+		isCall := sh == shCall || sh == shCallBare || sh == shCall2 || sh == shCall3
 		inWrapper := strings.HasPrefix(function, "syscall.Syscall(SB)")
 		loc := fmt.Sprintf("f.go:%d", n)
 		if sh == shRawBare {
@@ -453,7 +470,7 @@ type checkTextAdapter func(pc int, shapes []int)
 // c16Listings: well-formed listings of up to 3 functions x up to 2 sites from the site model.
 func c16Listings(ctx *evid.Ctx, check checkTextAdapter, tier string) {
 	loads := []int{shLoadAX, shLoadBP, shLoadNeg, shLoadUnknown, shXor, shNeutral, shLoadStack}
-	sites := []int{shRaw, shCall}
+	sites := []int{shRaw, shCall, shRaw2, shCall2, shCall3}
 	type site struct{ load, kind int }
 	var all []site
 	for _, l := range loads {
